@@ -301,6 +301,10 @@ class Session:
         ra, rb = self.read_ids.get(a, a), self.read_ids.get(b, b)
         self.ev.append({"op": "sametext", "a": ra, "b": rb, "perm": list(perm), "pfx": pfx, "strict": strict, "samegraph": samegraph})
 
+    def distincttext(self, a, b):
+        ra, rb = self.read_ids.get(a, a), self.read_ids.get(b, b)
+        self.ev.append({"op": "distincttext", "a": ra, "b": rb})
+
     def write(self, k, live=None, relabel=None):
         """live: the graph actually handed to the writer when it is object k under another (wide / sparse) numbering
         `relabel` (label of k -> label of live); the log states everything in k's labels"""
